@@ -644,9 +644,13 @@ class StaticResource(PrefixResource):
                 normalized_path = Path(os.path.normpath(unresolved_path))
                 normalized_path.relative_to(self._directory)
                 file_path = normalized_path.resolve()
+                # The index is rendered relative to the root, which the
+                # resolved location of a symlinked directory need not be.
+                index_path = normalized_path
             else:
                 file_path = unresolved_path.resolve()
                 file_path.relative_to(self._directory)
+                index_path = file_path
         except (ValueError, *CIRCULAR_SYMLINK_ERROR) as error:
             # ValueError is raised for the relative check. Circular symlinks
             # raise here on resolving for python < 3.13.
@@ -658,7 +662,7 @@ class StaticResource(PrefixResource):
             if file_path.is_dir():
                 if self._show_index:
                     return Response(
-                        text=self._directory_as_html(file_path),
+                        text=self._directory_as_html(index_path),
                         content_type="text/html",
                     )
                 else:
